@@ -34,6 +34,24 @@ KEEPABLE = ('copy', 'split_obs', 'split_channel', 'split_time', 'subset_obs', 's
             'df_default')
 
 
+NONFINITE = {'nan': float('nan'), 'inf': float('inf'), '-inf': float('-inf')}
+
+
+def nf_kind(x):
+    """'nan' / 'inf' / '-inf' for a non-finite number, None for a finite one"""
+    x = float(x)
+    return 'nan' if x != x else 'inf' if x == float('inf') else '-inf' if x == float('-inf') else None
+
+
+def nf_combine(kinds):
+    """IEEE sum / mean of cells of which some are non-finite: NaN if one is NaN or both infinities
+    occur, else the infinity that occurs, else None (finite)"""
+    ks = set(k for k in kinds if k)
+    if 'nan' in ks or ('inf' in ks and '-inf' in ks):
+        return 'nan'
+    return 'inf' if 'inf' in ks else '-inf' if '-inf' in ks else None
+
+
 JUNK = -777          # what the gaps of a strided buffer hold (never a measurement)
 DTYPES = {'float64': np.float64, 'float32': np.float32, 'int64': np.int64, 'int32': np.int32}
 
@@ -73,7 +91,7 @@ def like(template, values):
         buf = np.full(span + 1, JUNK, dtype=t.dtype)
         out = np.lib.stride_tricks.as_strided(buf[off:], shape=t.shape, strides=t.strides)
         out[...] = values
-        if np.array_equal(out, values):         # (fails for self-overlapping strides: fall back)
+        if np.array_equal(out, values, equal_nan=True):         # (fails for self-overlapping strides: fall back)
             return out
     return np.array(values, dtype=t.dtype)
 
@@ -198,6 +216,9 @@ def canon(ds):
 def build(init):
     """constructs the real object; `None` dictionaries and bare-string columns are passed as such"""
     meas = np.array(init['meas'], dtype=float)
+    # round 7: non-finite measurements (a NaN missing sample, +-inf) at the listed cells
+    for (i, j, t, kind) in init.get('nonfinite') or []:
+        meas[i, j, t] = NONFINITE[kind]
     if not init['temporal']:
         meas = meas[:, :, 0]
     meas = lay_out(meas, init.get('layout'), init.get('dtype'))
@@ -349,7 +370,7 @@ def resolve(ws, op):
             if is_temporal(d):
                 kw['time_descriptors'] = d.time_descriptors
             c = type(d)(d.measurements, **kw)
-            if canon(c) != canon(d):
+            if repr(canon(c)) != repr(canon(d)):       # (repr: a NaN measurement equals itself)
                 raise AssertionError('dataset rebuilt from its own parts differs from the original')
             return repl([c])
         return A(), True, call
@@ -363,8 +384,9 @@ def resolve(ws, op):
             nan_free = not any(isinstance(x, (float, np.floating)) and math.isnan(float(x))
                                for t in tables for v in t.values()
                                for x in (list(v) if isinstance(v, (list, tuple, np.ndarray)) else [v]))
-            if canon(c) != canon(d):
+            if repr(canon(c)) != repr(canon(d)):       # (repr: a NaN measurement equals itself)
                 raise AssertionError('copy() differs from the original')
+            nan_free = nan_free and not np.isnan(np.asarray(d.measurements, dtype=float)).any()
             if nan_free and (not (c == d) or not (d == c)):
                 raise AssertionError('copy() != original')
             # ... and differs from other objects, from a dataset of the other class and from a
@@ -373,7 +395,7 @@ def resolve(ws, op):
             other.obs_descriptors = dict(other.obs_descriptors, **{'~extra~': [0] * dims(d)[0]})
             if (d == 'x') or (other == d) or (is_temporal(d) and Dataset.__eq__(d, 0)):
                 raise AssertionError('__eq__ equates different objects')
-            if not np.array_equal(c.get_measurements(), d.measurements) or \
+            if not np.array_equal(c.get_measurements(), d.measurements, equal_nan=True) or \
                     np.shares_memory(c.measurements, d.measurements):
                 raise AssertionError('copy() shares or changes the measurements')
             return repl([c])
